@@ -368,6 +368,9 @@ func AuthorizeTokenExchangeClient(ctx context.Context, clientID, clientSecret st
 	if err != nil {
 		return nil, oidc.ErrInvalidClient().WithParent(err)
 	}
+	if client.AuthMethod() == oidc.AuthMethodPost && !exchanger.AuthMethodPostSupported() {
+		return nil, oidc.ErrInvalidClient().WithDescription("auth_method post not supported")
+	}
 
 	return client, nil
 }
